@@ -147,6 +147,40 @@ def c17(rep, W, rule="C17", sections=None):
         fac = pv.arg_terms(news[0][0])[0]
         okf = fac[0] == "agg" and isinstance(fac[1], tuple) and fac[1][0] == "closure" and any(v == pv.def_term((ws[0][0], "T")) for _, v in fac[2])
         rep.ob(rule + ".LISTEN", (fn, "serves-configured-webserver"), okf, "the application factory captures the WebServer built from the parsed configuration", where(mb, news[0][0]))
+    # STARTUP: the only reasons the binary may refuse to start (or stop) serving a data directory are the enumerated ones.
+    # A restart on the same directory must serve the same history: any additional start-up refusal (lock files, version
+    # checks, ...) is outside the argument and fails closed.
+    allowed_fail = {
+        WD.SQLITE + "::SqliteStorage::new": "the data directory cannot be opened / created",
+        "actix_web::server::HttpServer::<F, I, S, B>::bind": "a listen address cannot be bound",
+        "actix_web::server::HttpServer::<F, I, S, B>::run": "the server future ended with an I/O error",
+    }
+    nfail = 0
+    for site, term in S.exits(W, mb):
+        if not S.is_error_exit(term):
+            continue
+        nfail += 1
+        roots = [x[1] for x in P.walk(term) if x[0] == "call" and x[1] in allowed_fail]
+        others = [x[1] for x in P.walk(term) if x[0] == "call" and x[1] not in allowed_fail and not x[1].startswith("core::") and x[1] not in (
+            WD.SERVER + "::ServerArgs::new", WD.SERVER + "::command", "clap_builder::builder::command::Command::get_matches")]
+        mr = m(call(S.FROM_RESIDUAL, ("err", V("x"))), term)
+        src = None
+        if mr is not None:
+            x = mr["x"]
+            while x[0] in ("ok", "mut") or (x[0] == "call" and x[1] in ("core::future::future::Future::poll",)):
+                x = x[1] if x[0] == "ok" else (x[3] if x[0] == "mut" else x[3][0])
+            src = x[1] if x[0] == "call" else None
+        rep.ob(rule + ".STARTUP", (fn, "failure-mode", (src or "?").split("::")[-1]), src in allowed_fail,
+               "main can fail through %s: %s" % (src, allowed_fail.get(src, "NOT an enumerated start-up / shutdown failure mode -- a restart on the same data directory might be refused")),
+               where(mb, line=S.exit_line(mb, site)))
+    rep.floor(rule + ".STARTUP", "failure modes of main", nfail, 3, where(mb))
+    exits_ = W.bodies_calling(lambda c: c.get("def", "") in ("std::process::exit", "std::process::abort"))
+    exits_ = [(b.deff, t["callee"]["def"]) for b, bb, t in exits_ if b.unit in (WD.SERVER + "-lib", WD.SERVER + "-bin")]
+    rep.ob(rule + ".STARTUP", ("server", "no-process-exit"), not exits_, "process::exit / abort calls in the server crates: %s" % (exits_ or "none"))
+    fsc = W.bodies_calling(lambda c: c.get("def", "").startswith("std::fs::") or c.get("def", "").startswith("std::io::"))
+    fsc = [(b.deff, t["callee"]["def"]) for b, bb, t in fsc if b.unit in (WD.SERVER + "-lib", WD.SERVER + "-bin")]
+    rep.ob(rule + ".STARTUP", ("server", "no-direct-file-access"), not fsc,
+           "the server crates touch the file system only through SqliteStorage; direct std::fs / std::io calls: %s" % (fsc or "none"))
     # ARGS: field <- id agreement
     ab = W.body(ARGS_NEW)
     want_ids = {"data_dir": ("data-dir", "get_one"), "snapshot_versions": ("snapshot-versions", "get_one"), "snapshot_days": ("snapshot-days", "get_one"),
